@@ -439,6 +439,18 @@ def build_state(cfg, rng):
             assert l.get()
             l.fail()
             locks[k] = 'failed'
+    # somebody looked at the lock files in the meantime (`cat` to see host and pid, a recursive grep, a backup scan or a restore that keeps modification times only):
+    # reading moves a file's access time and nothing else - what a lock *is* (free / held / failed) does not change
+    read_locks = False
+    if cfg.kind in ('file', 'filez') and locks and rng.random() < 0.5:
+        ldir = os.path.join(cfg.dir, 'locks')
+        if os.path.isdir(ldir):
+            read_locks = True
+            for fn in sorted(os.listdir(ldir)):
+                fp = os.path.join(ldir, fn)
+                open(fp, 'rb').read()
+                stl = os.stat(fp)
+                os.utime(fp, ns=(stl.st_atime_ns + 86_400_000_000_000 * (1 + len(fn) % 3), stl.st_mtime_ns))
     temps = 0
     if cfg.kind in ('file', 'filez') and rng.random() < 0.5:
         os.makedirs(os.path.join(cfg.dir, 'tempfiles'), exist_ok=True)
@@ -449,7 +461,7 @@ def build_state(cfg, rng):
         store.close()
     except Exception:
         pass
-    return {'files': files, 'packed': packed, 'locks': locks, 'temps': temps}
+    return {'files': files, 'packed': packed, 'locks': locks, 'temps': temps, 'lock_files_read': read_locks}
 
 
 def observe(cfg):
@@ -637,6 +649,11 @@ def cleanup_family(run, drv, n):
             active = sorted(rng.sample(range(NKEYS), rng.randint(0, NKEYS)))
             before = observe(cfg)
             rp = {'kind': 'cleanup', 'backend': kind, 'mode': mode, 'state': st, 'active': active, 'jugdir_spelling': spelling}
+            made = {str(k): v for k, v in st['locks'].items()}
+            if before['locks'] != made:
+                run.fail('lock-state-misread', '%s store: the holders left the locks %s (taken, or taken and marked failed%s) but is_locked() / is_failed() of a new client report %s: cleanup --failed-only would %s'
+                         % (kind, made, '; the lock files were read by somebody since' if st.get('lock_files_read') else '', before['locks'],
+                            'leave failed locks in place' if any(v == 'failed' and before['locks'].get(k) != 'failed' for k, v in made.items()) else 'treat them wrongly'), rp)
             run.count('spelling_%s' % spelling)
             try:
                 out = real_cleanup(cfg, mode, active)
@@ -729,7 +746,7 @@ def stale_cleanup_family(run, n=4):
 
 
 def large_value_family(run, quick=True):
-    """values far above every buffer / block / threshold of the backends (tens of MiB): arrays of plain and of object dtype, a long byte string, a long list; dumped, loaded
+    """values far above every buffer / block / threshold of the backends (tens of MiB): arrays of plain and of object dtype, a long byte string, a long list, single strings and integers of hundreds of KiB (alone and inside a dict, at sizes just around powers of two); dumped, loaded
     back through a fresh store object - same type (exactly: an ndarray comes back as an ndarray, not as a view of a mapped file), dtype, shape, content; after a reopen too"""
     scratch = core.scratch_dir()
     try:
@@ -738,13 +755,15 @@ def large_value_family(run, quick=True):
                   ('int32 2-d array', (np.arange(n // 2, dtype='<i4') % 1000).reshape(-1, 4)),
                   ('object array', np.array([('s%d' % (i % 7)) if i % 3 else i for i in range(n // 8)], dtype=object)),
                   ('bytes', bytes(range(256)) * (n // 64)),
-                  ('list of ints', list(range(n // 4)))]
+                  ('list of ints', list(range(n // 4))),
+                  ('one long str (%d KiB of UTF-8)' % ((n // 16) * 5 >> 10), 'ab\u20ac' * (n // 16)),
+                  ('dict with strs just around 2**16 / 2**18 / 2**20 characters and a 3-Mbit int', dict([('s%d' % k, 'q' * k) for b in (16, 18, 20) for k in ((1 << b) - 1, 1 << b, (1 << b) + 1)] + [('n', (1 << (3 << 20)) + 12345), ('small', [1, 2.5, None])]))]
         for kind in ('file', 'filez', 'redis', 'dictfile'):
             d = os.path.join(scratch, 'large-' + kind)
             os.makedirs(d, exist_ok=True)
             cfg = Cfg(kind, d)
             for j, (label, v) in enumerate(values):
-                if quick and kind in ('redis', 'dictfile') and j not in (0, 2):
+                if quick and kind in ('redis', 'dictfile') and j not in (0, 2, 5, 6):
                     continue
                 key = keyname(j)
                 rp = {'kind': 'large-value', 'backend': kind, 'value': label}
